@@ -46,6 +46,7 @@ type Call struct {
 	Callee  string
 	Ordinal int
 	Ghosts  []Let    // ghost instantiation for the callee's ghost variables
+	Sets    []Let    // updates of the caller's mutable ghost variables after the call ($r0.. are the call's results)
 	Asserts []Clause // asserted before the call
 	Assumes []Clause
 	Uses    []*cexpr.Node // lemma / axiom instances assumed before the call
@@ -57,6 +58,7 @@ type Func struct {
 	Pkg      string
 	Unit     string
 	Ghosts   []string
+	GhostVars []Let // mutable ghost variables (int) with their initial values
 	Lets     []Let
 	Requires []Clause
 	Ensures  []Clause
@@ -140,7 +142,7 @@ var keywords = map[string]bool{
 	"unit": true, "func": true, "pred": true, "requires": true, "ensures": true, "modifies": true,
 	"readonly": true, "loop": true, "invariant": true, "variant": true, "let": true, "use": true,
 	"split": true, "ghost": true, "raises": true, "inline": true, "exact": true, "trusted": true,
-	"at": true, "assert": true, "assume": true, "lemma": true, "opt": true, "havoc": true, "with": true,
+	"ghostvar": true, "set": true, "at": true, "assert": true, "assume": true, "lemma": true, "opt": true, "havoc": true, "with": true,
 	"pure": true, "keep": true, "end": true, "sweep": true, "region": true, "parent": true, "entry": true,
 }
 
@@ -510,6 +512,21 @@ func Parse(text, path, pkg string) (*File, error) {
 				curCall = &Call{Callee: name, Ordinal: ord}
 				cur.Calls = append(cur.Calls, curCall)
 				curLoop = nil
+			case "ghostvar":
+				l, err := parseLet(rc)
+				if err != nil {
+					return nil, err
+				}
+				cur.GhostVars = append(cur.GhostVars, l)
+			case "set":
+				if curCall == nil {
+					return nil, perr(rc, fmt.Errorf("'set' outside 'at call'"))
+				}
+				l, err := parseLet(rc)
+				if err != nil {
+					return nil, err
+				}
+				curCall.Sets = append(curCall.Sets, l)
 			case "with":
 				if curCall == nil {
 					return nil, perr(rc, fmt.Errorf("'with' outside 'at call'"))
